@@ -171,10 +171,18 @@ class BaseConstructor:
 class SafeConstructor(BaseConstructor):
 
     def construct_scalar(self, node):
-        if isinstance(node, MappingNode):
+        visited = []
+        while isinstance(node, MappingNode):
+            if any(node is other for other in visited):
+                raise ConstructorError(None, None,
+                        "found unconstructable recursive node", node.start_mark)
+            visited.append(node)
             for key_node, value_node in node.value:
                 if key_node.tag == 'tag:yaml.org,2002:value':
-                    return self.construct_scalar(value_node)
+                    node = value_node
+                    break
+            else:
+                break
         return super().construct_scalar(node)
 
     def flatten_mapping(self, node):
